@@ -55,7 +55,11 @@ def _usable(rec, *points):
     if rec._min_point is not None or rec._max_point is not None:
         return False
     for x in (rec._start_point, rec._end_point):
-        if x is not None and (x._truncated or not R.tp_is_integral(x)):
+        # anchors: whole seconds, or a binary fraction of a second on an
+        # hh:mm:ss point (exact in floats)
+        if x is not None and (x._truncated or not (
+                R.tp_is_integral(x) or (R.tp_is_dyadic(x, 16) and
+                                        x._second_of_minute is not None))):
             return False
     for x in points:
         # probes may use a decimal form whose arithmetic is exact (R1)
@@ -306,7 +310,8 @@ def install(ctx, repo, probes):
                 ctx.cls("first_after/between")
     probes.wrap(TR, "get_first_after", post_first_after)
     ctx.target("same-object-other-mode", "binary-fraction-interval",
-               "probe/far-along", "first_after/far-along")
+               "probe/far-along", "first_after/far-along",
+               "fractional-second-anchor")
     ctx.target("probe/sub-second-near-miss", "is_valid/True", "is_valid/False", "getitem/in", "getitem/out",
                "next/member", "next/none", "prev/member", "prev/none",
                "first_after/none", "first_after/last-member",
@@ -518,6 +523,16 @@ def workload(ctx, repo):
             desc = recgen.make(rng, mode, fmt=rng.choice((3, 4)),
                                reps=rng.choice((None, 3, 5, 9)),
                                interval=rng.choice(recgen.BINARY_INTERVALS))
+        elif k % 10 == 3:
+            # whole-second intervals from an anchor on a fraction of a
+            # second (every member is then off the whole seconds)
+            desc = recgen.make(rng, mode, fmt=rng.choice((3, 4)),
+                               reps=rng.choice((None, 4, 9)),
+                               interval="exact")
+            a = desc["end"] if desc["fmt"] == 4 else desc["start"]
+            if a.get("hour_of_day") != 24 and "second_of_minute" in a:
+                a["second_of_minute_decimal"] = rng.choice((0.5, 0.25, 0.75))
+                ctx.cls("fractional-second-anchor")
         case = {"op": "queries", "desc": desc,
                 "probe_seed": rng.randrange(10**9)}
         if k % 3 == 0:
